@@ -28,7 +28,7 @@ pub fn apply(tc: &TransferControl, op: &str, reasons: &mut Vec<String>) -> Strin
             Err(ResumeRejection::WrongFileIndex { requested, current }) => format!("rwf:{}:{}", h(requested as u64), h(current as u64)),
             Err(ResumeRejection::OutOfWindow) => "roow".into(),
         },
-        "C" => { let r = format!("reason-{}", f[1]); tc.cancel(r); "-".into() }
+        "C" => { tc.cancel(reason_text(f[1])); "-".into() }
         "P" => { tc.push_replay(p(f[1]), p(f[2]), f[3] == "1", unhex(f[4])); "-".into() }
         "E" => { tc.set_peer(peer(p(f[1]))); "-".into() }
         "W" => match tc.wait_for_credit(p(f[1]), Instant::now() - Duration::from_millis(1)) {
@@ -45,14 +45,17 @@ pub fn apply(tc: &TransferControl, op: &str, reasons: &mut Vec<String>) -> Strin
         _ => panic!("bad op {op}"),
     }
 }
-fn reason_id(r: &str, _reasons: &mut Vec<String>) -> String { r.strip_prefix("reason-").map(|s| s.to_string()).unwrap_or_else(|| format!("?{r}")) }
+/// reason 0 is the empty string (a reason like any other: the first one still wins)
+fn reason_text(n: &str) -> String { if n == "0" { String::new() } else { format!("reason-{n}") } }
+fn reason_name(r: &str) -> String { if r.is_empty() { "0".to_string() } else { r.strip_prefix("reason-").map(|s| s.to_string()).unwrap_or_else(|| format!("?{r}")) } }
+fn reason_id(r: &str, _reasons: &mut Vec<String>) -> String { reason_name(r) }
 fn ring_s(cs: &[repe::RingChunk]) -> String {
     if cs.is_empty() { return "-".into(); }
     cs.iter().map(|c| format!("{}.{}.{}.{}", h(c.offset), h(c.data_len), if c.last { 1 } else { 0 }, hex(&c.body_bytes))).collect::<Vec<_>>().join("+")
 }
 pub fn snapshot(tc: &TransferControl) -> String {
     let (s, a) = tc.offsets();
-    let c = tc.cancel_reason().map(|r| r.strip_prefix("reason-").unwrap_or("?").to_string()).unwrap_or_else(|| "-".into());
+    let c = tc.cancel_reason().map(|r| reason_name(&r)).unwrap_or_else(|| "-".into());
     let pr = tc.peer().map(|p| h(p.peer_id().0)).unwrap_or_else(|| "-".into());
     format!("{},{},{},{},{}", h(s), h(a), c, pr, ring_s(&tc.replay_chunks_from(0)))
 }
